@@ -13,7 +13,7 @@ structure Dir where
   cond : Cond
 deriving Repr, Inhabited, DecidableEq
 
-inductive ArgVal | str (s : String) | var (v : String) | other
+inductive ArgVal | str (s : String) | var (v : String) | bool (b : Bool) | other
 deriving Repr, Inhabited, DecidableEq
 
 inductive Sel where
